@@ -1,6 +1,7 @@
 (* Proofs/C03.v — no panic escapes any dispatch path of Model/C03.v. *)
 From Coq Require Import List NArith Bool ZArith Lia ZifyBool ZifyN ZifyNat.
 From VR Require Import Model.C03.
+From VR Require Model.C10.
 Import ListNotations.
 Local Arguments N.eqb : simpl never.
 Local Arguments N.ltb : simpl never.
@@ -242,6 +243,49 @@ Lemma decoder_fatal_escapes :
   /\ o_out (model (mk HInit (str "p_only") BFatal TShort)) = OEscaped
   /\ o_out (model (mk HExchange (str "e_only") BFatal TShort)) = OEscaped.
 Proof. vm_compute. repeat split. Qed.
+
+(* ---- the protocol-version gate on arbitrary version text -------------------------
+   checkProtocolVersion runs on the client's vgi_rpc.protocol_version value
+   outside every recover; the value is an arbitrary byte string *)
+Lemma get_last_snoc k v (m : list kv) : get_last k (m ++ [(k, v)]) = Some v.
+Proof. unfold get_last. rewrite rev_app_distr. cbn [rev app get_first]. rewrite beqb_refl. reflexivity. Qed.
+
+(* whatever precedes it in the metadata (duplicates included), a last value that
+   is not canonical semver is refused by the gate — a decision, never a panic *)
+Lemma pv_refused_malformed (m : list kv) cv : C10.parse cv = None ->
+  pv_refused true (m ++ [(meta_protocol_version, cv)]) = true.
+Proof. intros H. unfold pv_refused. rewrite get_last_snoc. unfold C10.gate. rewrite H. reflexivity. Qed.
+
+Definition pv_req (m cv : bytes) : body := BBatch (std_meta m ++ [(meta_protocol_version, cv)]) 1 CX.
+Definition mkv (r : route) (path : bytes) (b : body) : input :=
+  {| i_route := r; i_pv := true; i_upload := false; i_introspect := false; i_path := path;
+     i_ct := c03_arrow_content_type; i_enc := EncNone; i_body := b; i_tok := TShort; i_calltok := KAbsent;
+     i_cache_hit := false; i_ins := IValid; i_follow := true |}.
+
+(* every place the gate runs answers a malformed version with the
+   ProtocolVersionError (error stream / 400) and the pipe keeps serving *)
+Lemma malformed_version_answered cv : C10.parse cv = None ->
+  model (mkv Pipe [] (pv_req (str "u_int") cv)) = {| o_out := OErr pv_error_type; o_status := 0; o_errhdr := false; o_next := true |}
+  /\ model (mkv Pipe [] (pv_req (str "p_only") cv)) = {| o_out := OErr pv_error_type; o_status := 0; o_errhdr := false; o_next := true |}
+  /\ model (mkv Pipe [] (pv_req (str "e_only") cv)) = {| o_out := OErr pv_error_type; o_status := 0; o_errhdr := false; o_next := true |}
+  /\ model (mkv Pipe [] (pv_req (str "dyn") cv)) = {| o_out := OErr pv_error_type; o_status := 0; o_errhdr := false; o_next := true |}
+  /\ model (mkv HUnary (str "u_int") (pv_req (str "u_int") cv)) = hresp 400 pv_error_type
+  /\ model (mkv HInit (str "p_only") (pv_req (str "p_only") cv)) = hresp 400 pv_error_type
+  /\ model (mkv HInit (str "e_only") (pv_req (str "e_only") cv)) = hresp 400 pv_error_type
+  /\ model (mkv HInit (str "dyn") (pv_req (str "dyn") cv)) = hresp 400 pv_error_type.
+Proof. intros H. repeat split; cbv -[C10.parse]; rewrite H; reflexivity. Qed.
+
+Lemma malformed_version_examples :
+  forallb (fun v => match C10.parse v with None => true | Some _ => false end)
+    [str "1..0"; str "0..0"; str "12..x"; str ".."; str "."; []; str "2.10."; str ".10.3"; str "2.."; str "1...0";
+     [255; 46; 46; 254]; str "2.10.03"; str "2.10.3-rc1"; [50; 46; 49; 48; 46; 51; 10]] = true.
+Proof. vm_compute. reflexivity. Qed.
+
+(* __describe__ and a server that declares no version never parse the value *)
+Lemma version_not_parsed_when_ungated cv :
+  o_out (model (mkv Pipe [] (pv_req c03_method_describe cv))) = OOk
+  /\ pv_refused false (std_meta (str "u_int") ++ [(meta_protocol_version, cv)]) = false.
+Proof. split; [cbv -[C10.parse]; reflexivity | reflexivity]. Qed.
 
 (* ---- openToken over arbitrary bytes --------------------------------------------- *)
 
